@@ -251,6 +251,28 @@ func runC06(c *core.Ctx) {
 		}
 	}
 	r.Floor(rule, 10)
+
+	// the segment grid: a bucket index counted in ABSOLUTE time (a Duration since the epoch anchor) is turned back
+	// into a start instant by adding a Duration, never by feeding it into the wall-clock fields of time.Date
+	// (the two drift apart whenever the UTC offset differs from the one at the anchor: DST, zone rule changes)
+	if f := r.fn("c06.grid-absolute-arithmetic", stPkg, "IntervalRule.Standard"); f != nil {
+		rule := "c06.grid-absolute-arithmetic"
+		n := 0
+		for _, in := range ssax.Find(f, ssax.CallTo("time.Date")) {
+			n++
+			construct := fmt.Sprintf("%s: time.Date#%d takes no sub-day field computed from an absolute duration", ssax.FuncName(f), n)
+			bad := false
+			// hour / minute / second / nanosecond fields only: a count of calendar DAYS obtained by rounding the
+			// absolute distance (the DAY branch's +12h idiom) may legitimately go into the day field
+			for i, a := range in.(*ssa.Call).Call.Args {
+				if i >= 3 && i <= 6 && flowsFromCallSuffix(a, "time.Time).Sub", 0) {
+					bad = true
+				}
+			}
+			r.Check(!bad, rule, construct, r.pos(in), "a count of absolute hours / days (derived from Sub) is passed to a wall-clock field of time.Date: for zones whose current UTC offset differs from the anchor's, the rebuilt bucket start is shifted and the bucket does not contain the instant it was computed for — points are filed in the previous segment, an empty segment is created and the next write panics")
+		}
+		r.Floor(rule, 1)
+	}
 }
 
 func flowsFromCallNamed(v ssa.Value, callee string, depth int) bool {
@@ -392,6 +414,39 @@ func runC07(c *core.Ctx) {
 			}
 		}
 		r.Floor(rule, 5)
+	}
+
+	// retention's "now" is bounded by the clock: the instant handed to retentionTask.run derives from clock.Now()
+	// (possibly min'ed with the tick's event time), never from the event time of written data alone
+	{
+		rule := "c07.retention-now-from-clock"
+		n := 0
+		for _, f := range r.P.ModuleFuncs(stPkg) {
+			for _, in := range ssax.Find(f, func(in ssa.Instruction) bool {
+				cc := ssax.Common(in)
+				return cc != nil && strings.HasSuffix(ssax.CalleeName(cc), ".retentionTask[T, O]).run")
+			}) {
+				n++
+				args := ssax.Common(in).Args
+				var now ssa.Value
+				for _, a := range args {
+					if strings.HasSuffix(a.Type().String(), "time.Time") {
+						now = a
+					}
+				}
+				construct := fmt.Sprintf("%s: retention run #%d is given an instant bounded by the clock", ssax.FuncName(f), n)
+				if now == nil {
+					r.Undecide(rule, construct, r.pos(in), "no time.Time argument")
+					continue
+				}
+				// a timer-driven call passes the scheduler's own time (a parameter of the callback); an event-driven
+				// call must consult the clock
+				fromClock := flowsFromCallSuffix(now, ").Now", 0) || flowsFromCallSuffix(now, "time.Now", 0)
+				_, isParam := now.(*ssa.Parameter)
+				r.Check(fromClock || isParam, rule, construct, r.pos(in), "the instant handed to retention is computed from the event time carried by Tick (the maximum written timestamp) without consulting the clock: a single accepted point dated beyond now+TTL moves the deadline past every live segment and retention deletes the group's current data")
+			}
+		}
+		r.Floor(rule, 1)
 	}
 
 	// the TTL is rewritten in place by live group updates: every read of it through the controller's
